@@ -287,7 +287,13 @@ def check_run(fx, rep, crate, cfg):
         if kind == 'calls':
             for b, t in run.iter_terms('call'):
                 if t['callee'].get('def') == S.get_next_call_fn:
-                    start_op = t['args'][2]
+                    # the start index argument: the one of type Option<usize>
+                    for a_ in t['args']:
+                        ty_ = ((a_.get('place') or {}).get('ty') or a_.get('ty') or '')
+                        if ty_.replace(' ', '') in ('std::option::Option<usize>', 'core::option::Option<usize>'):
+                            start_op = a_
+                    if start_op is None and len(t['args']) > 2:
+                        start_op = t['args'][2]
         else:
             # SelectAll::new(start) that is moved into the fused future of this arm
             for b, t in run.iter_terms('call'):
@@ -406,14 +412,24 @@ def check_run(fx, rep, crate, cfg):
                 e = sym.expr(crate, body, t['args'][0])
                 rep.check(e[0] == 'arg', 'R18.4', '%s|start-index-forwarded|%s' % (body.path, cfg), C.where(body, b),
                           'get_next_call forwards its start index unchanged to the select', 'get_next_call does not forward its start index unchanged: %s' % sym.show(e))
-    rep.floor('R18.4', 3, 'push sites / start forwarding')
+    rep.floor('R18.4', 2, 'push sites / start forwarding')
     # R18.5 the select is the only source of a served call: every Ok return of get_next_call hands out the awaited SelectAll result,
     # and no receive is started outside the futures handed to the select
     if g is not None:
         oks = [(b, i, st) for b, i, v, st in C.ok_err_of_return_sites(g) if v == 'Ok']
+        plain_value = False
+        if not oks and not (g.d.get('ret_ty') or g.locals[0].get('ty') or '').startswith(('std::result::Result<', 'core::result::Result<')):
+            # the function returns the (index, call) pair itself, not wrapped in an always-Ok Result
+            oks = [(b, i, st) for b, i, v, st in C.ok_err_of_return_sites(g) if v == 'other' and isinstance(i, int)]
+            plain_value = True
         bad = []
         for b, i, st in oks:
-            q = op_place(st['rv']['ops'][0]) if st.get('rv') and st['rv'].get('ops') else None
+            if plain_value:
+                q = op_place(st['rv']['op']) if st['rv']['k'] == 'use' else None
+                if q is None:
+                    q = next(iter(mir.rv_places_read(st['rv'])), None)
+            else:
+                q = op_place(st['rv']['ops'][0]) if st.get('rv') and st['rv'].get('ops') else None
             locs, evs = g.slice_back([q['l']]) if q else (set(), [])
             from_select = any(e[0] == 'call' and e[2]['callee'].get('name') == 'poll' and 'select_all::SelectAll' in (e[2]['callee'].get('resolved') or '') + str(e[2]['callee'].get('args') or '') for e in evs) or \
                 any(e[0] == 'call' and e[2]['callee'].get('name') == 'into_future' and 'SelectAll' in (e[2]['callee'].get('args') or '') for e in evs)
